@@ -537,6 +537,29 @@ func roundTrip(c rtCase) (v *violation, allowedErr bool, serialized string) {
 		if v := checkToken(tag, "decoded by "+d.name, dec, c.Mint, want, sum); v != nil {
 			return v, false, s
 		}
+		// the decoded token keeps saying the same whatever a caller does with the proofs it was handed: the library's
+		// own consumers write into that slice (Receive adds witnesses, NewTokenV3(..., false) clears DLEQ)
+		var before, after string
+		p, msg = safely(func() {
+			before, _ = dec.Serialize()
+			handed := dec.Proofs()
+			for i := range handed {
+				handed[i].Witness = `{"signatures":["written by the caller"]}`
+				handed[i].DLEQ = nil
+				handed[i].Amount++
+			}
+			after, _ = dec.Serialize()
+		})
+		if p {
+			return &violation{fmt.Sprintf("C14|roundtrip|%s|accessor_panic", tag), d.name + ": " + msg}, false, s
+		}
+		if before != after {
+			return &violation{fmt.Sprintf("C14|roundtrip|%s|token_changed_through_proofs_accessor", tag), fmt.Sprintf("%s: the token serialises differently after the caller modified the slice returned by Proofs()", d.name)}, false, s
+		}
+		if v := checkToken(tag, "decoded by "+d.name+", after the caller modified the proofs it was handed", dec, c.Mint, want, sum); v != nil {
+			v.sig += "|after_caller_modified_proofs"
+			return v, false, s
+		}
 	}
 	return nil, false, s
 }
